@@ -112,7 +112,7 @@ func vfC14Gen(rt *rapid.T) vfC14Case {
 			default:
 				id = uint32(rapid.IntRange(200000, 200005).Draw(rt, "rm_unknown"))
 			}
-			return vfVecOp{Op: "remove", ID: id}
+			return vfVecOp{Op: "remove", ID: id, Vec: vfGenRemovePayload(rt, g)}
 		case w < 64:
 			return vfVecOp{Op: "flush"}
 		default:
@@ -392,7 +392,7 @@ func vfC14Run(c vfC14Case, ctx *vfCtx) *vfViolation {
 				return vfFail("op %d: Add of an invalid vector succeeded", i)
 			}
 		case "remove":
-			err := idx.Remove(*NewVectorNodeWithID(op.ID, nil))
+			err := idx.Remove(*NewVectorNodeWithID(op.ID, vfCloneF32(op.Vec)))
 			_, isLive := live[op.ID]
 			if isLive && err != nil {
 				return vfFail("op %d: Remove(%d) of a live vector failed: %v", i, op.ID, err)
